@@ -389,6 +389,10 @@ class P:
 
     def expr(self, minp=1):
         lhs = self.unary()
+        if self.peek() == '..' and minp <= 1 and lhs[0] != 'range':
+            self.next()
+            hi = None if self.peek() in (']', ')', ',', ';') else self.expr(2)
+            return ('range', lhs, hi)
         while True:
             op = self.peek()
             p = self.PREC.get(op)
@@ -397,6 +401,10 @@ class P:
             self.next()
             rhs = self.expr(p + 1)
             lhs = ('bin', op, lhs, rhs)
+            if self.peek() == '..' and minp <= 1:
+                self.next()
+                hi = None if self.peek() in (']', ')', ',', ';') else self.expr(2)
+                lhs = ('range', lhs, hi)
             while self.peek() == 'as':
                 self.next()
                 self.skip_type([',', ')', ';', '}', ']', '||', '&&', '==', '!=', '+', '-', '*', '/', '|', '&', '^', '<<', '>>', '?', '.', '{'])
@@ -404,6 +412,10 @@ class P:
 
     def unary(self):
         t = self.peek()
+        if t == '..':
+            self.next()
+            hi = None if self.peek() in (']', ')', ',', ';') else self.expr(2)
+            return ('range', None, hi)
         if t == '!':
             self.next()
             return ('not', self.unary())
@@ -615,6 +627,11 @@ class Opaque:      # a value the plan does not depend on (decoded results, arith
 class Arr:         # a byte buffer of known (Lean term) length
     def __init__(self, n):
         self.n = n
+
+
+class Num:         # a length (Lean term of type Nat)
+    def __init__(self, e):
+        self.e = e
 
 
 class RegName:     # a read-only register named in a read_register call
@@ -887,13 +904,17 @@ class Interp:
             raise Unsupported('arity of %s::%s' % (owner, name))
         for k, v in zip(ps, args):
             env[k] = v
+        n_before = len(self.acts) + len(self.writes) + len(self.hal_ops)
         self.depth += 1
         try:
             r = self.exec_block(body, env, top=False)
         finally:
             self.depth -= 1
         if isinstance(r, tuple) and r and r[0] == 'ret':
-            return r[1]
+            r = r[1]
+        if len(self.acts) + len(self.writes) + len(self.hal_ops) != n_before and isinstance(r, Res) and r.kind == 'ok':
+            # it contains `?` on bus operations: its own Result carries their failures
+            r = Res('bus', r.payload)
         return r
 
     def exec_block(self, blk, env, top):
@@ -1260,6 +1281,25 @@ class Interp:
 
     def eval_strict(self, e, env):
         k = e[0]
+        if k == 'index' and e[2][0] == 'range':
+            base = self.eval(e[1], env)
+            lo = self.eval(e[2][1], env) if e[2][1] is not None else None
+            hi = self.eval(e[2][2], env) if e[2][2] is not None else None
+            if isinstance(base, Arr):
+                def nat(v):
+                    if isinstance(v, Num):
+                        return v.e
+                    if isinstance(v, U8):
+                        return str(int(v.e[2:4], 16)) if v.e.startswith('0x') else None
+                    return None
+                lo_t = '0' if lo is None else nat(lo)
+                hi_t = base.n if hi is None else nat(hi)
+                if lo_t is None or hi_t is None:
+                    raise HardUnsupported('slice bounds')
+                if lo_t == '0':
+                    return Arr('(min %s %s)' % (hi_t, base.n) if hi is not None else base.n)
+                return Arr('(min %s %s - %s)' % (hi_t, base.n, lo_t))
+            raise HardUnsupported('slice of something that is not a buffer')
         if k in ('index', 'cast', 'array'):
             for sub in (e[1:] if k != 'array' else e[1]):
                 if isinstance(sub, tuple):
@@ -1317,6 +1357,8 @@ class Interp:
                 raise Unsupported('unknown name ' + p[0])
             if len(p) == 2 and p[0] == 'Command':
                 return Enum('Command', ('c', p[1]))
+            if len(p) == 2 and (p[0], p[1]) in self.maps.get('masks', {}):
+                return Byte(p[0], '0x%02X#8' % self.maps['masks'][(p[0], p[1])])
             if len(p) == 2 and p[0] in self.items['enum']:
                 return Enum(p[0], ('c', p[1]))
             if len(p) == 2 and p[0] in self.maps['enums']:
@@ -1482,7 +1524,7 @@ class Interp:
                 self.acts.append([self.guard(), '.wr 0x%02X %s' % (addr, paren(v.e)), None])
                 self.last_write = len(self.acts) - 1
                 self.reset_since = False
-            return Res('bus' if self.api else 'ok', None)
+            return Res('bus', None)
         args = [self.eval(a, env) for a in e[3]]
         if name == 'clone' and not args and isinstance(recv, Ref) and recv.ty == 'Config':
             self.nclone = getattr(self, 'nclone', 0) + 1
@@ -1503,7 +1545,18 @@ class Interp:
             return self.run_fn(recv.ty, name, recv, args)
         if isinstance(recv, Var):
             return self.run_fn(recv.ty, name, recv, args)
-        if self.api and isinstance(recv, (Opaque, Arr, U8, Bool, Enum, Tup)) and name not in self.known_fns():
+        if isinstance(recv, Arr) and name == 'len' and not args:
+            return Num(recv.n)
+        if isinstance(recv, Arr) and name == 'is_empty' and not args:
+            return Bool('(%s == 0)' % recv.n)
+        if isinstance(recv, Num) and name in ('min', 'max') and len(args) == 1:
+            a = args[0]
+            t = a.e if isinstance(a, Num) else (str(int(a.e[2:4], 16)) if isinstance(a, U8) and a.e.startswith('0x') else
+                                              a.e[len('(BitVec.ofNat 8 '):-1] if isinstance(a, U8) else None)
+            if t is None:
+                raise HardUnsupported('argument of a length computation')
+            return Num('(%s %s %s)' % (name, recv.e, t))
+        if self.api and isinstance(recv, (Opaque, Arr, U8, Bool, Enum, Tup, Num)) and name not in self.known_fns():
             return Opaque()
         if name in self.known_fns():
             raise HardUnsupported('method .%s of the crate on %s' % (name, type(recv).__name__))
@@ -1514,6 +1567,20 @@ class Interp:
         key = (r.ty, name)
         if name == 'bits' and not args:
             return U8(r.e)
+        if len(args) == 1 and isinstance(args[0], Byte) and args[0].ty == r.ty:
+            o = args[0].e
+            if name == 'union':
+                return Byte(r.ty, 'uni %s %s' % (paren(r.e), paren(o)))
+            if name == 'difference':
+                return Byte(r.ty, 'clr %s %s' % (paren(r.e), paren(o)))
+            if name == 'intersection':
+                return Byte(r.ty, '(%s &&& %s)' % (paren(r.e), paren(o)))
+            if name == 'intersects':
+                return Bool('has %s %s' % (paren(r.e), paren(o)))
+            if name == 'contains':
+                return Bool('((%s &&& %s) == %s)' % (paren(r.e), paren(o), paren(o)))
+        if name == 'is_empty' and not args:
+            return Bool('(%s == 0x00#8)' % paren(r.e))
         if key in m['flagenc'] and len(args) == 1 and isinstance(args[0], Bool):
             mask = m['flagenc'][key]
             a = args[0].e
@@ -1551,7 +1618,7 @@ def lean_num(s):
 
 def load_maps(leandir, srcdir):
     enc = open(os.path.join(leandir, 'Thm', 'Encoders.lean')).read()
-    maps = {'flagenc': {}, 'flagdec': {}, 'enumdec': {}, 'enumenc': {}, 'enums': {}}
+    maps = {'flagenc': {}, 'flagdec': {}, 'enumdec': {}, 'enumenc': {}, 'enums': {}, 'masks': load_masks(srcdir)}
     for m in re.finditer(r'isFlag (R\.\w+) Enc\.([A-Za-z0-9]+)_(with_\w+)', enc):
         maps['flagenc'][(m.group(2), m.group(3))] = m.group(1)
     dm = re.search(r'theorem dec_flags :\s*\[(.*?)\]\s*=\s*\[(.*?)\]', enc, re.S)
@@ -1586,6 +1653,30 @@ def load_maps(leandir, srcdir):
         if lty in lean2rust:
             maps['enumenc'][(m.group(1), m.group(2))] = (m.group(5), m.group(4) is None, lean2rust[lty])
     return maps
+
+
+def load_masks(srcdir):
+    """(register type, constant) -> mask value, from the cfg_register! items of registers.rs"""
+    src = re.sub(r'//[^\n]*', '', open(os.path.join(srcdir, 'registers.rs')).read())
+    out = {}
+    for m in re.finditer(r'cfg_register!\s*\{\s*(\w+)\s*:\s*0x[0-9A-Fa-f]+\s*=\s*0x[0-9A-Fa-f]+\s*\{(.*?)\}\s*\}', src, re.S):
+        consts = {}
+        for c in re.finditer(r'const\s+(\w+)\s*=\s*([^;]+);', m.group(2)):
+            expr = c.group(2).strip().replace('_', '')
+            try:
+                if re.fullmatch(r'0b[01]+', expr):
+                    v = int(expr[2:], 2)
+                elif re.fullmatch(r'0x[0-9A-Fa-f]+', expr):
+                    v = int(expr[2:], 16)
+                else:
+                    v = 0
+                    for part in c.group(2).split('|'):
+                        v |= consts[re.fullmatch(r'\s*Self::(\w+)\.bits\s*', part).group(1)]
+            except Exception:
+                continue
+            consts[c.group(1)] = v
+            out[(m.group(1), c.group(1))] = v
+    return out
 
 
 def load_regaddr(srcdir):
